@@ -22,6 +22,9 @@ def run(ctx):
     for k in range(4):
         jobs.append((binary, hooks, seeds[42 + k], (2000, 500, 5000, 0)[k] if hooks else 0, (None, 4, None, 2)[k],
                      "stormpw" if k == 2 else None, 30 if ctx.quick else 200, ctx.quick, ["claim", "claim", "claim", "rename"]))
+    # W11: queries answered in several lines while the names asked about change hands
+    jobs.append((binary, hooks, seeds[46], 0, None, None, 3 if ctx.quick else 20, ctx.quick, ["queries"]))
+    jobs.append((binary, hooks, seeds[47], 0, 2, None, 2 if ctx.quick else 10, ctx.quick, ["queries"]))
     # W10 needs some 12 MB per round: its own two jobs (debug build; with and without jitter)
     jobs.append((binary, hooks, seeds[40], 0, None, None, 2 if ctx.quick else 12, ctx.quick, ["backlog"]))
     jobs.append((binary, hooks, seeds[41], 2000 if hooks else 0, 2, None, 2 if ctx.quick else 12, ctx.quick, ["backlog"]))
@@ -72,7 +75,9 @@ def run(ctx):
                 "within 12 s each, then the slow one reads every reply, complete and in command order; W9 a pipelined flood to a "
                 "channel while members QUIT / close / PART: those who stay get every copy; W10 four senders pile up 12 MB for a "
                 "receiver that reads nothing, then it sends PING and reads: the PONG must come before 97 % of the backlog "
-                "(its own commands are served while messages wait), nothing lost, per sender in order; "
+                "(its own commands are served while messages wait), nothing lost, per sender in order; W11 ten connections flip "
+                "between two nicknames each while observers ask ISON / USERHOST about all of them with lists long enough for "
+                "several reply lines: every line of one answer shows the same state, one name of each pair; "
                 "distinct = workload classes; evidence lists distinct winners and reconstructed orders")
     res.floor("rounds", res.evaluations, 400 if ctx.quick else 2000)
     res.floor("distinct_orders_and_interleavings", orders, 4)
